@@ -288,16 +288,7 @@ def write_output_document(
     args: argparse.Namespace, log: ConsolePrinter, yaml_editor: YAML,
     docs: List[Merger]
 ) -> None:
-    """Save a backup of the overwrite file, if requested."""
-    if args.backup:
-        backup_file = args.overwrite + ".bak"
-        log.verbose(
-            "Saving a backup of {} to {}."
-            .format(args.overwrite, backup_file))
-        if exists(backup_file):
-            remove(backup_file)
-        copy2(args.overwrite, backup_file)
-
+    """Write the merged document(s), after any requested backup."""
     document_is_json = (
         docs[0].prepare_for_dump(yaml_editor, args.output)
         is OutputDocTypes.JSON)
@@ -306,6 +297,18 @@ def write_output_document(
     for doc in docs:
         doc.prepare_for_dump(yaml_editor, args.output)
         dumps.append(doc.data)
+
+    # Save a backup of the overwrite file, if requested -- once the result is
+    # known to be presentable, lest a run which fails before it writes leave a
+    # (or replace an earlier) backup behind.
+    if args.backup:
+        backup_file = args.overwrite + ".bak"
+        log.verbose(
+            "Saving a backup of {} to {}."
+            .format(args.overwrite, backup_file))
+        if exists(backup_file):
+            remove(backup_file)
+        copy2(args.overwrite, backup_file)
 
     if args.output:
         with open(args.output, 'w', encoding='utf-8') as out_fhnd:
